@@ -19,11 +19,11 @@ import (
 
 // ImportJ is one declared import plus what the catalog holds for its name.
 type ImportJ struct {
-	Name     string   `json:"name"`
-	Version  int      `json:"version"`
-	MaxID    int      `json:"max_id"`   // declared max_id (>= 0)
-	Catalog  string   `json:"catalog"`  // exact | newer | older | missing
-	Symbols  []string `json:"symbols"`  // symbols of the table found in the catalog ("" = gap)
+	Name    string   `json:"name"`
+	Version int      `json:"version"`
+	MaxID   int      `json:"max_id"`  // declared max_id (>= 0)
+	Catalog string   `json:"catalog"` // exact | newer | older | missing
+	Symbols []string `json:"symbols"` // symbols of the table found in the catalog ("" = gap)
 }
 
 type C09Case struct {
